@@ -4,6 +4,11 @@ errors.  Model: Model/Block.lean, in which every `expect`, division, `chunks`,
 shift, slice and conversion of the Rust code is an explicit failure point.
 -/
 import CoapLite.Lemmas.BlockTrace
+import CoapLite.Lemmas.Shape.Block
+import CoapLite.Lemmas.Shape.BlockValue
+import CoapLite.Lemmas.Shape.Request
+import CoapLite.Lemmas.Shape.Packet
+import CoapLite.Lemmas.Shape.Global
 
 namespace CoapLite.C11
 open CoapLite Block
@@ -80,5 +85,27 @@ option; zero budget) are errors now -/
 example : negotiate (some { num := 0, more := true, szx := 0 }) 26 16 22 = .herr (some .InternalServerError) := by
   decide
 example : negotiate none 10 0 0 = .herr (some .InternalServerError) := by decide
+
+/-! ### tie to the source: the state the model carries is the state the code carries
+
+`Shapes.*` (Generated/Shapes.lean) is re-read from /repo/src on every run: the field lists of the
+structs this property's model mirrors, and every construct that introduces state outside the values
+the API passes around (thread-locals, `static mut`, cells, locks, atomics). The model accounts for
+exactly these fields (Lemmas/Shape/*.lean say which model field mirrors which); a field or a
+global added to the code – a memo, a marker, a digest in place of the data – breaks this theorem
+even if no explored input behaves differently. -/
+theorem state_shape_matches_source :
+    Shapes.globalState = [] ∧
+    Shapes.blockHandler = [("config", "BlockHandlerConfig"), ("states", "LruCache<RequestCacheKey<Endpoint>,BlockState>")] ∧
+    Shapes.blockHandlerConfig = [("max_total_message_size", "usize"), ("cache_expiry_duration", "Duration")] ∧
+    Shapes.requestCacheKey = [("request_type_ord", "u8"), ("path", "Vec<Vec<u8>>"), ("requester", "Option<Endpoint>")] ∧
+    Shapes.blockState = [("last_request_block2", "Option<BlockValue>"), ("cached_response", "Option<Packet>"), ("cached_request_payload", "Option<Vec<u8>>")] ∧
+    Shapes.blockValue = [("num", "u16"), ("more", "bool"), ("size_exponent", "u8")] ∧
+    Shapes.coapRequest = [("message", "Packet"), ("response", "Option<CoapResponse>"), ("source", "Option<Endpoint>")] ∧
+    Shapes.coapResponse = [("message", "Packet")] ∧
+    Shapes.packet = [("header", "Header"), ("token", "Vec<u8>"), ("options", "BTreeMap<u16,LinkedList<Vec<u8>>>"), ("payload", "Vec<u8>")] ∧
+    Shapes.header = [("ver_type_tkl", "u8"), ("code", "MessageClass"), ("message_id", "u16")] ∧
+    Shapes.headerRaw = [("ver_type_tkl", "u8"), ("code", "u8"), ("message_id", "u16")] :=
+  ⟨ShapeTie.no_global_state, ShapeTie.blockHandler, ShapeTie.blockHandlerConfig, ShapeTie.requestCacheKey, ShapeTie.blockState, ShapeTie.blockValue, ShapeTie.coapRequest, ShapeTie.coapResponse, ShapeTie.packet, ShapeTie.header, ShapeTie.headerRaw⟩
 
 end CoapLite.C11
